@@ -18,6 +18,7 @@ type OutgoingTransfer struct {
 	Id uint64
 
 	startFlag  bool
+	endFlag    bool
 	dataStream io.Reader
 }
 
@@ -54,6 +55,11 @@ func NewBundleOutgoingTransfer(id uint64, b bpv7.Bundle) *OutgoingTransfer {
 
 // NextSegment creates the next XFER_SEGMENT for the given MTU or an EOF in case of a finished Writer.
 func (t *OutgoingTransfer) NextSegment(mtu uint64) (dtm *msgs.DataTransmissionMessage, err error) {
+	if t.endFlag {
+		err = io.EOF
+		return
+	}
+
 	var segFlags msgs.SegmentFlags
 
 	if t.startFlag {
@@ -62,10 +68,17 @@ func (t *OutgoingTransfer) NextSegment(mtu uint64) (dtm *msgs.DataTransmissionMe
 	}
 
 	var buf = make([]byte, mtu)
-	if n, rErr := io.ReadFull(t.dataStream, buf); rErr == io.ErrUnexpectedEOF {
+	switch n, rErr := io.ReadFull(t.dataStream, buf); rErr {
+	case nil:
+
+	case io.ErrUnexpectedEOF, io.EOF:
+		// The data ended within this segment, or exactly with the previous one. Both times this segment, which might
+		// be empty, is the last one. Otherwise, a transfer whose length is a multiple of the MTU would never be ended.
 		buf = buf[:n]
 		segFlags |= msgs.SegmentEnd
-	} else if rErr != nil {
+		t.endFlag = true
+
+	default:
 		err = rErr
 		return
 	}
